@@ -39,8 +39,11 @@ func genConcCase(t *rapid.T) ConcCase {
 		ops := append([]Op{}, common...)
 		for i := rapid.IntRange(0, 4).Draw(t, "nown"); i > 0; i-- {
 			k := "add"
-			if rapid.IntRange(0, 4).Draw(t, "rm") == 0 {
+			switch rapid.IntRange(0, 6).Draw(t, "rm") {
+			case 0:
 				k = "remove"
+			case 1, 2:
+				k = "verify" // the read-only query (can this sender pay for the transaction on top of what is pooled?)
 			}
 			ops = append(ops, Op{Kind: k, Tx: rapid.IntRange(0, 9).Draw(t, "tx")})
 		}
@@ -116,6 +119,8 @@ func checkConcCase(c ConcCase, o *vt.Obs) error {
 					_ = pool.Add(m.tx, bf, m.idx)
 				case "remove":
 					pool.Remove(m.hash)
+				case "verify":
+					_ = pool.Verify(m.tx, bf)
 				}
 			}
 		}(ops)
